@@ -166,10 +166,17 @@ def _python_side(ctx):
         sql = node.args[0].value if isinstance(node.args[0], pyast.Constant) else ''
         if is_cancelled_ancestor_query(sql):
             ps = args[1]
+            eng.ctx.add(core.decided('C07/_create_job_group/the-cancelled-ancestor-query-ranges-over-every-self-or-ancestor-of-the-parent', True, ' '.join(sql.split())[:200], kind='scan'))
             eng.oblige(st, 'the-cancelled-ancestor-query-is-asked-about-the-parent-group-of-this-batch', z3.And(z3.BoolVal(isinstance(ps, tuple) and len(ps) == 2), eng.equal(ps[0], st.env['batch_id']), eng.equal(ps[1], st.env['parent_job_group_id'])) if isinstance(ps, tuple) and len(ps) == 2 else z3.BoolVal(False))
             row = pyvc.SRecord('row', {'cancelled': 1})
             raise Fork(node, [('an-ancestor-or-the-parent-is-cancelled', None, 'value', row, lambda s: s.env.__setitem__('PARENT_CANCELLED', True)), ('nothing-above-is-cancelled', None, 'value', None, lambda s: s.env.__setitem__('CHECKED_CLEAR', True))])
-        raise core.Undecided('unrecognised query in _create_job_group: %s' % ' '.join(sql.split())[:80])
+        flat_ = ' '.join(sql.split())
+        if 'job_groups_cancelled' in flat_ and 'job_group_self_and_ancestors' in flat_:
+            # it is the cancelled-ancestor lookup, but not the relation grp_cancelled(batch, parent): every self-or-ancestor row of
+            # the parent joined with the cancelled groups, restricted by nothing but (batch, parent) - a further conjunct (an ancestor
+            # left out, a level bound) lets a group be created beneath a cancelled ancestor
+            eng.ctx.add(core.decided('C07/_create_job_group/the-cancelled-ancestor-query-ranges-over-every-self-or-ancestor-of-the-parent', False, flat_[:400], kind='scan'))
+        raise core.Undecided('unrecognised query in _create_job_group: %s' % flat_[:80])
 
     # ---- wave 4: the ancestor closure written by _create_job_group, evaluated by sqlvc on the real statement text
     ex = SP.proc_exec(inline_after=False)
